@@ -17,7 +17,8 @@ from vlib import bootstrap
 GETTERS = ["get_is_chiral", "get_wyckoff_letters_original", "get_wyckoff_sets_conventional:params", "get_space_group_number", "get_material_id",
            "get_conventional_system", "get_primitive_system", "get_wyckoff_letters_primitive", "get_wyckoff_letters_conventional",
            "get_equivalent_atoms_original", "get_equivalent_atoms_primitive", "get_equivalent_atoms_conventional", "get_wyckoff_sets_conventional",
-           "get_has_free_wyckoff_parameters"]
+           "get_has_free_wyckoff_parameters", "get_crystal_system", "get_bravais_lattice", "get_point_group", "get_hall_number", "get_hall_symbol",
+           "get_space_group_international_short"]
 LAST = {"log": None, "msg": None}
 
 
@@ -37,7 +38,8 @@ def _norm(name, v):
     if name == "get_wyckoff_sets_conventional:params":
         r = lambda x: None if x is None else round(float(x), 6)
         return sorted((s.wyckoff_letter, s.element, tuple(int(i) for i in s.indices), r(s.x), r(s.y), r(s.z)) for s in v)
-    if name in ("get_space_group_number", "get_is_chiral", "get_material_id", "get_has_free_wyckoff_parameters"):
+    if name in ("get_space_group_number", "get_is_chiral", "get_material_id", "get_has_free_wyckoff_parameters", "get_crystal_system", "get_bravais_lattice",
+                "get_point_group", "get_hall_number", "get_hall_symbol", "get_space_group_international_short"):
         return v if not hasattr(v, "item") else v.item()
     return [str(x) for x in np.asarray(v).tolist()]
 
@@ -178,5 +180,5 @@ def campaign(pid, seed, n_examples_per_worker, workers=16):
                 json.dump({"property": pid, "clause": "history-independent", "statemachine": r["fail"]["log"], "observed": r["fail"]["msg"]}, f, indent=1)
             failures.append({"key": "statemachine:history-independent", "clause": "history-independent", "msg": r["fail"]["msg"], "path": path})
     cov = {"statemachine_runs": n_examples_per_worker * workers, "statemachine_getter_checks": sum(r["getter_checks"] for r in res),
-           "statemachine_rules": ["getter(14 getters incl. Wyckoff sets with and without parameters)", "set_system(new object)", "set_system(same object modified in place)", "reset"]}
+           "statemachine_rules": ["getter(20 getters incl. Wyckoff sets with and without parameters, crystal system, Bravais lattice, point group, Hall number/symbol)", "set_system(new object)", "set_system(same object modified in place)", "reset"]}
     return failures, cov
